@@ -11,12 +11,19 @@ SubAct(D, ovf) == LET o == ZSub(cur.z, cur.t, D, ovf) IN last' = [op |-> "subtra
 DiffAct(t2, lg, since) == /\ last' = [op |-> IF since THEN "since" ELSE "until", z |-> cur.z, t |-> cur.t, t2 |-> t2, lg |-> lg,
                                      out |-> IF since THEN ZSince(cur.z, cur.t, t2, lg) ELSE ZUntil(cur.z, cur.t, t2, lg)]
                           /\ cur' = [cur EXCEPT !.t = t2]
+\* the other operand in ANOTHER time zone (same instant t2): a time largest unit still gives the exact elapsed time - zones play no part in it -
+\* and a date largest unit is a RangeError (day lengths differ between zones)
+OtherZone(same, lg) == IF lg \in DateUnits /\ IsOtherZone(cur.z, "+03:00") THEN ErrRange ELSE same
+DiffOzAct(t2, lg, since) == /\ last' = [op |-> IF since THEN "since" ELSE "until", z |-> cur.z, t |-> cur.t, t2 |-> t2, lg |-> lg, oz |-> "+03:00",
+                                       out |-> OtherZone(IF since THEN ZSince(cur.z, cur.t, t2, lg) ELSE ZUntil(cur.z, cur.t, t2, lg), lg)]
+                            /\ UNCHANGED cur
 SodAct == last' = [op |-> "startOfDay", z |-> cur.z, t |-> cur.t, out |-> Ok(ZStartOfDay(cur.z, cur.t))] /\ UNCHANGED cur
 WptAct(sod) == last' = [op |-> "withPlainTime", z |-> cur.z, t |-> cur.t, sod |-> sod, out |-> ZWithPlainTime(cur.z, cur.t, sod)] /\ UNCHANGED cur
 HidAct == last' = [op |-> "dayLength", z |-> cur.z, t |-> cur.t, out |-> Ok(DayLength(cur.z, cur.t))] /\ UNCHANGED cur
 Next == /\ (OneStep => last = None)
         /\ \/ \E D \in Durs, ovf \in {"constrain", "reject"} : AddAct(D, ovf) \/ SubAct(D, ovf)
            \/ \E t2 \in Instants, lg \in Largests, s \in BOOLEAN : DiffAct(t2, lg, s)
+           \/ \E t2 \in Instants, lg \in Largests, s \in BOOLEAN : DiffOzAct(t2, lg, s)
            \/ SodAct \/ HidAct
            \/ \E sod \in {0, 1800, 2 * 3600 + 1800, 3 * 3600, 12 * 3600, 86399} : WptAct(sod)
            \* ... and the time the receiver already shows: inside a repeated interval the answer is the EARLIER occurrence, not the receiver
